@@ -180,7 +180,11 @@ func tfHandler(args string) string {
 }
 
 func unescapeHandler(args string) string {
-	lit, err := hex.DecodeString(strings.TrimSpace(args))
+	arg := strings.TrimSpace(args)
+	if arg == "-" {
+		arg = ""
+	}
+	lit, err := hex.DecodeString(arg)
 	if err != nil {
 		return "badreq"
 	}
